@@ -26,9 +26,9 @@ ENTRY = dict(
     technique="Lean 4 proof (engine-model lemma + kernel-checked witnesses) + paired wrapped/inlined lock-step replay",
     lean_modules=["Bpmn.Props.C12", "Bpmn.Props.C12Current", "Bpmn.Props.EngineCurrent", "Bpmn.Props.C12Steps", "Bpmn.Props.C12Nest", "Bpmn.Props.C12Blind", "Bpmn.Props.C12Loop"],
     harness_files=["c03.go"],
-    families=["c12", "c12fork", "c12nest", "c12loop"],
+    families=["c12", "c12fork", "c12nest", "c12loop", "c12seq"],
     facts_from=["Engine", "C12", "C02"],
-    rule=("c12loop: the program of Props/C12Loop (loopProc N, same element names; a sub-process entered again and again while c < N) run by the real engine for N in 1..6 (thorough 1..24) with rising values, a value that leaves at once and values that stay low, compared round by round with the run of loopProc N in the model at the extracted configuration; c12nest: the program family of Props/C12Nest (nestProc d, same element names) run by the real engine at depth 1..10 (thorough: 16, 24, 32 too), compared step by step with the model's run of nestProc d at the extracted configuration; c12fork: a sub-process whose content forks WITHOUT joining (2..3 inner tasks behind a parallel gateway or an activity with several outgoing flows, running into one shared inner end event or one each; also nested in another sub-process), every order of answering the inner tasks: the task behind the sub-process is requested once, after the last inner answer; pairs of runs of one seeded block-structured program (tasks, seq, exclusive, parallel, loops, sub blocks; <= 12 "
+    rule=("c12seq: several sub-processes in one program, some not entered yet (three in sequence; a two-level nest followed by another; a choice between two), with and without the events of the instance looped back to it (ingress and egress on one fan-out); half of the paired cases of c12 run with the events looped back too; c12loop: the program of Props/C12Loop (loopProc N, same element names; a sub-process entered again and again while c < N) run by the real engine for N in 1..6 (thorough 1..24) with rising values, a value that leaves at once and values that stay low, compared round by round with the run of loopProc N in the model at the extracted configuration; c12nest: the program family of Props/C12Nest (nestProc d, same element names) run by the real engine at depth 1..10 (thorough: 16, 24, 32 too), compared step by step with the model's run of nestProc d at the extracted configuration; c12fork: a sub-process whose content forks WITHOUT joining (2..3 inner tasks behind a parallel gateway or an activity with several outgoing flows, running into one shared inner end event or one each; also nested in another sub-process), every order of answering the inner tasks: the task behind the sub-process is requested once, after the last inner answer; pairs of runs of one seeded block-structured program (tasks, seq, exclusive, parallel, loops, sub blocks; <= 12 "
           "nodes quick, <= 20 thorough; each sub block wrapped in 1..3 nested sub-processes vs inlined), identical variables "
           "and answer order (pending requests sorted by name, seeded choice); non-trivial = the program contains a "
           "sub-process and both runs were judged without finding; distinct by program and history"),
